@@ -68,6 +68,7 @@ struct Agg {
     violations: Vec<(u64, Value)>,
     harness_errors: Vec<(u64, String)>,
     hangs: Vec<u64>,
+    corpus_failures: Vec<(String, String)>,
 }
 
 fn add_map(into: &mut BTreeMap<String, u64>, v: &Value) {
@@ -209,6 +210,25 @@ pub fn check(prop: &str, tier: &str) -> i32 {
     for h in handles {
         let _ = h.join();
     }
+    // regression corpus: minimised histories of defects found (and repaired) earlier must stay clean
+    let corpus = verif_root().join("replays").join("corpus");
+    if let Ok(rd) = std::fs::read_dir(&corpus) {
+        let mut files: Vec<std::path::PathBuf> = rd.flatten().map(|e| e.path()).filter(|p| p.file_name().map(|n| n.to_string_lossy().starts_with(&format!("{prop}-"))).unwrap_or(false)).collect();
+        files.sort();
+        for file in files {
+            let output = Command::new(exe()).arg("replay").arg(&file).stdout(Stdio::piped()).stderr(Stdio::null()).output();
+            *agg.extra.entry("corpus_replays".into()).or_insert(0) += 1;
+            match output {
+                Ok(o) if o.status.code() == Some(0) => {}
+                Ok(o) if o.status.code() == Some(1) => {
+                    let text = String::from_utf8_lossy(&o.stdout);
+                    let first = text.lines().find(|l| l.starts_with("# C")).unwrap_or("").to_string();
+                    agg.corpus_failures.push((file.display().to_string(), first));
+                }
+                _ => agg.harness_errors.push((0, format!("corpus replay {} could not run", file.display()))),
+            }
+        }
+    }
     finish(prop, tier, base_seed, agg, started)
 }
 
@@ -316,6 +336,11 @@ fn finish(prop: &str, tier: &str, base_seed: u64, agg: Agg, started: Instant) ->
             violation_lines.push(format!("VIOLATION property={prop} replay={}", replay.display()));
             exit = 1;
         }
+    }
+    for (file, what) in &agg.corpus_failures {
+        println!("# a recorded history fails again: {what}");
+        violation_lines.push(format!("VIOLATION property={prop} replay={file}"));
+        exit = 1;
     }
     known_lines.sort();
     known_lines.dedup();
